@@ -42,6 +42,8 @@ class FifoDevice:
         self.buf = b""
         self.lost = False
         self.nrecv = 0
+        self.chunk_rng = __import__("random").Random(12345)
+        self.sockfile = None
         self.alive = True
         self.t0 = time.monotonic()
         FifoDevice.inst = self
@@ -116,7 +118,100 @@ class FifoDevice:
 
     def idle(self):
         with self.lock:
-            return self.busy == 0 and self.rx.empty() and self.inq.empty()
+            sf = self.sockfile
+            return self.busy == 0 and self.rx.empty() and self.inq.empty() and (sf is None or not sf.pending)
+
+
+class FakeSockFile:
+    """socket.makefile('rwb', buffering=0) of the fake: non-blocking reads in chunks cut at arbitrary places"""
+    def __init__(self, dev):
+        self.dev = dev
+        self.pending = b""
+        self.tags = []            # (end offset in the stream, text, tag) of lines not yet completely handed over
+        self.handed = 0
+        self.streamed = 0
+
+    def _pull(self):
+        while True:
+            try:
+                b, tag = self.dev.rx.get_nowait()
+            except queue.Empty:
+                return
+            self.pending += b
+            self.streamed += len(b)
+            self.tags.append((self.streamed, b.decode().strip(), tag))
+
+    def read(self, n):
+        if self.dev.lost:
+            return b""            # EOF
+        self._pull()
+        if not self.pending:
+            return None
+        k = min(n, len(self.pending), self.dev.chunk_rng.choice([1, 3, 7, 16, 256]))
+        out, self.pending = self.pending[:k], self.pending[k:]
+        self.handed += k
+        while self.tags and self.tags[0][0] <= self.handed:
+            _, text, tag = self.tags.pop(0)
+            self.dev.log("rx", text, tag)
+        return out
+
+    def write(self, data):
+        return self.dev.write(data)
+
+    def flush(self):
+        pass
+
+    def close(self):
+        pass
+
+
+class FakeSocket:
+    """socket.socket replacement backed by a FifoDevice"""
+    def __init__(self, *a, **k):
+        self.dev = FifoDevice()
+        self.file = FakeSockFile(self.dev)
+        self.dev.sockfile = self.file
+
+    def setsockopt(self, *a):
+        pass
+
+    def settimeout(self, t):
+        pass
+
+    def connect(self, addr):
+        self.dev.is_open = True
+
+    def makefile(self, *a, **k):
+        return self.file
+
+    def close(self):
+        self.dev.close()
+
+    def fileno(self):
+        return 0
+
+
+class FakeSelector:
+    def __init__(self):
+        self.sock = None
+
+    def register(self, sock, ev):
+        self.sock = sock
+
+    def unregister(self, sock):
+        pass
+
+    def close(self):
+        pass
+
+    def select(self, timeout=None):
+        t0 = time.time()
+        while time.time() - t0 < (timeout or 0):
+            f = self.sock.file
+            if f.pending or not f.dev.rx.empty() or f.dev.lost:
+                return [object()]
+            time.sleep(0.002)
+        return []
 
 
 def install_fake():
@@ -125,6 +220,8 @@ def install_fake():
     import gscrib.printrun.device as dev
     dev.serial.Serial = FifoDevice
     dev.Device._disable_ttyhup = lambda self: None
+    dev.socket.socket = FakeSocket
+    dev.selectors.DefaultSelector = FakeSelector
     signal.signal = lambda *a, **k: None       # the writer installs handlers; the harness may call it off the main thread
 
 
@@ -165,7 +262,10 @@ def run_scenario(sc):
                 return sc.get("m110_latency", 0.002)
         return 0.002
     FifoDevice.cfg = dict(script=script, chatter_latency=chatter)
-    w = PrintrunWriter("serial", "localhost", "/dev/fake", 115200)
+    if sc.get("mode", "serial") == "socket":
+        w = PrintrunWriter("socket", "localhost", "8888", 0)
+    else:
+        w = PrintrunWriter("serial", "localhost", "/dev/fake", 115200)
     w.connect()
     dev = FifoDevice.inst
     if sc.get("quiescent", True):
@@ -262,7 +362,7 @@ def gen_scenario(rng, thorough):
         if rng.random() < 0.12:
             between.append(rng.choice(ERROR_LINES))
         stmts.append(dict(text=text, pre=pre, term=term, reading=reading, between=between))
-    sc = dict(stmts=stmts, quiescent=True)
+    sc = dict(stmts=stmts, quiescent=True, mode=rng.choice(["serial", "serial", "socket"]))
     if rng.random() < 0.12:
         # the connection drops instead of the acknowledgement of one statement
         k = rng.randrange(n)
@@ -389,11 +489,15 @@ def main():
         dict(text="M105", pre=[], term=(0.02, "ok T:210.0 /210.0 B:60.0 /60.0"), reading=("T", 210.0), between=[]),
         dict(text="G1 X9999", pre=[], term=(0.02, "error: 20"), reading=None, between=[]),
         dict(text="G1 X1", pre=[], term=(0.0, "ok"), reading=None, between=[])])))
+    scen.append(("corpus-socket", dict(quiescent=True, mode="socket", stmts=[
+        dict(text="M105", pre=[(0.0, "<Idle|MPos:1.000,2.000,3.000|FS:100,0>")], term=(0.05, "ok T:199.5 /210.0 B:60.0 /60.0"), reading=("T", 199.5), between=[]),
+        dict(text="G1 X5 Y5 F600", pre=[], term=(0.08, "ok"), reading=None, between=["ALARM:1"]),
+        dict(text="G1 X1", pre=[], term=(0.01, "error: 20"), reading=None, between=[])])))
     for _ in range(n):
         scen.append(("random", gen_scenario(run.rng, run.thorough)))
     found = False
     coq, meta = [], []
-    stats = dict(scenarios=0, statements=0, error_replies=0, unsolicited_lines=0, connection_losses=0, kinds={})
+    stats = dict(scenarios=0, statements=0, error_replies=0, unsolicited_lines=0, connection_losses=0, kinds={}, modes={})
     for kind, sc in scen:
         res = run_scenario(sc)
         stats["scenarios"] += 1
@@ -402,6 +506,7 @@ def main():
         stats["error_replies"] += sum(1 for s in sc["stmts"] if s["term"][1] and classify_line(s["term"][1]) == "LErr")
         stats["unsolicited_lines"] += sum(len(s.get("between", [])) for s in sc["stmts"])
         stats["connection_losses"] += 1 if "loss_at" in sc else 0
+        stats["modes"][sc.get("mode", "serial")] = stats["modes"].get(sc.get("mode", "serial"), 0) + 1
         rep = dict(scenario={k: v for k, v in sc.items()}, events=[list(e) for e in res["events"]], results=[list(r) for r in res["results"]])
         run.count((kind, repr(sc["stmts"])), len(sc["stmts"]) >= 2)
         probs = analyse(sc, res)
@@ -446,7 +551,8 @@ def main():
                       dict(correspondence="check_trace (model/Direct.v) vs PrintrunWriter + printcore over the fake device", first=mism[0],
                            theorems=["C16_order", "C16_sync", "C16_return_after_own_ack", "C16_error_surfaces"]), no_input=True)
     proof_broken_violation(run, st, found)
-    run.cov["rule"] = ("the real PrintrunWriter + printcore (sender and reader threads) over a fake serial.Serial with a FIFO device thread: 1-7 "
+    run.cov["rule"] = ("the real PrintrunWriter + printcore (sender and reader threads) in serial mode over a fake serial.Serial and in socket mode over a fake "
+                       "socket / selector whose reads are cut into chunks of 1-256 bytes, both with a FIFO device thread: 1-7 "
                        "statements (moves, M105/M114 with readings, blanks to strip), per statement 0-2 status lines before the terminator with "
                        "0-40 ms gaps, acknowledgement latency 0-120 ms, error replies (error:/Error:/ALARM:/!!) at any position, unsolicited "
                        "status and error lines while idle, connection loss instead of an acknowledgement; quiescent start enforced (the fake "
@@ -455,7 +561,7 @@ def main():
                        "they answer / the next write; readings available on return; no normal return after connection loss. "
                        "Correspondence: each loss-free trace is a run of model/Direct.v (check_trace in Coq).")
     extra = dict(input_distribution=stats, traces_checked=len(meta), correspondence_mismatches=len(mism),
-                 modelled_not_verified=["threading.Event / queue.Queue semantics, scheduler, timeouts", "socket mode (same writer code over device.Device sockets: C17 covers the line splitting)",
+                 modelled_not_verified=["threading.Event / queue.Queue semantics, scheduler, timeouts", 
                                         "the fake device (harness code)"])
     run.finish(proof=st, extra=extra)
 
